@@ -49,9 +49,9 @@ var validRePool = []string{
 	`a|`, `|refs/stash`, `refs/stash`, `refs/heads/(a|abc)`, `(?i)REFS/HEADS/.*`, `refs/tags/b|refs/tags/bc.`, ``,
 }
 
-var validSymPool = []string{"ci,bots", "ci", "bots", "tags.rel.rc", "branches.team.alice", "mine.topic.wip", "mine", "a.b", "a.c", "a.b.d", "tags.releases", "tags", "branches.mine", "other", "ignored", "a.other", "x.y.z.w", ".lead", "trail.", "do..ts", "UP", "e.f", "deep.1.2.3.4.5.6.7.8.9.10.11.12.13.14"}
+var validSymPool = []string{"remotes.origin/releases", "misc.foo/all", "branches.team/a", "ci,bots", "ci", "bots", "tags.rel.rc", "branches.team.alice", "mine.topic.wip", "mine", "a.b", "a.c", "a.b.d", "tags.releases", "tags", "branches.mine", "other", "ignored", "a.other", "x.y.z.w", ".lead", "trail.", "do..ts", "UP", "e.f", "deep.1.2.3.4.5.6.7.8.9.10.11.12.13.14"}
 
-var symPool = []string{"ci,bots", "ci", "bots", "tags.rel.rc", "branches.team.alice", "mine.topic.wip", "mine", "a", "a.b", "a.c", "a.b.d", "tags.releases", "tags", "branches.mine", "other", "ignored", "a.other", "x.y.z.w", ".lead", "trail.", "do..ts", "UP", "undefinedgrp", "e.f", "deep.1.2.3.4.5.6.7.8.9.10.11.12.13.14"}
+var symPool = []string{"remotes.origin/releases", "misc.foo/all", "branches.team/a", "ci,bots", "ci", "bots", "tags.rel.rc", "branches.team.alice", "mine.topic.wip", "mine", "a", "a.b", "a.c", "a.b.d", "tags.releases", "tags", "branches.mine", "other", "ignored", "a.other", "x.y.z.w", ".lead", "trail.", "do..ts", "UP", "undefinedgrp", "e.f", "deep.1.2.3.4.5.6.7.8.9.10.11.12.13.14"}
 
 func genPrefix(r *rng) string {
 	s := refPool[r.n(len(refPool))]
